@@ -5,6 +5,7 @@ import (
 	"fmt"
 	"os"
 	"strconv"
+	"strings"
 	"time"
 
 	"verif/mc"
@@ -17,7 +18,8 @@ func Run(r *mc.Run) {
 	r.Rule = "auth: every single-field mutation (nonce/limit every bit, price/value low 72 bits, every recipient bit, every payload bit, every bit of R and S, V over 0..255+2*id and wide values, other network ids on signer and/or V, high-s twin) of 6 signed base transactions, decoded from wire form by the real decoder; EVERY mutated object is asked for its sender repeatedly, as the node does: types.Sender, types.Sender again, AsMessage, types.Sender with an equal signer built independently, core.ProcessSenders over a batch of NumCPU+1 transactions holding it followed by AsMessage and Sender, and a fresh object of the same wire form whose first contact is ProcessSenders (each answer: refused or a sender other than the original signer, never the zero address without an error, the same answer every time); control: every valid base transaction object queried by a foreign-network signer and the right signer in both orders, 13 steps, for 6 foreign ids (foreign = refused every time, right = the signer every time); " +
 		"forged: the full product base transaction (4) x forgery (9: high-s twin, N-s, foreign network in V (2), R=0, S=0, R+N, unprotected V, wide V) x way to ApplyTransaction (4: directly; after ProcessSenders on a batch of NumCPU+1; after ProcessSenders and after the valid transactions before it were applied; after a refused types.Sender and ProcessSenders) x position in the batch (3), two attempts each, on a state where the zero address holds funds: refused for its signature, all three trie roots, gas pool and header counters untouched; " +
 		"product: the full product sender x nonce x price x limit x recipient x value x payload x balance x pool through the real StateProcessor.ApplyTransaction driven as miner/worker.go does (Prepare, Snapshot, ApplyTransaction, RevertToSnapshot on error) with the staking converter registered, on a state reopened from a committed base; " +
-		"seq: every sequence of <= depth transactions of a 10-element alphabet (two senders, competing nonces, one GasPool). A case is non-trivial when distinct: distinct = (recipient, payload, limit class, outcome incl. gas used) for product, (op, outcome) for sequences, (base, field, mutation) for auth, (base, forgery, way, position) for forged"
+		"staking: for each of three families (validator messages, delegation messages, master-signed messages under YouV4) the full product prepared state x staking message x sender x funding class x price (lists in coverage.staking_product), one transaction to the staking module each, through the same ApplyTransaction path; the prepared states put every check of the staking handlers on its boundary (validator absent / below MinStakes / low / dv just fits under MaxStakes / dv overflows by one LU / at MaxStakes, that total in the record or in a pending total; online / offline / expelled with expiry on either side of the period end / not accepting delegations; delegator with 0 / max-1 / max other delegations, the last one existing or pending; delegator's own delegation to the validator none / existing / pending; validator with 0 / max-1 / max other delegators, the last one existing or pending; pending create), built by the production write patterns and checked against the C08 link invariants; oracle: refused = all three trie roots as before, included-but-failed = all three trie roots equal a twin state that got only nonce+1 and balance - gasUsed x price and no log is left, included-and-successful = account trie equals the twin after nonce+1 and balance - gasUsed x price - staked value, validator trie untouched, staking trie changed, pending total (and pending delegation) up by exactly the staked value and naming the transaction; gas used = the converter's rule; pool, header counters and receipt consistent; next to the trie roots the live objects around the transaction (sender, target validator, its pending records, relationship and counters) are compared with the twin's through the API, the state's error memo must stay empty and the state must be hashable, thorough: the whole observed fixture universe is compared for every case; the handler's error text is read from the converter's log record and only labels counters and detail texts (stk_failed[kind]: reason); the run is a harness error if any late failure (stakes overflow via deposit and via delegation, delegator limit, validator limit) or any successful kind has zero hits; " +
+		"seq: every sequence of <= depth transactions of a 10-element alphabet (two senders, competing nonces, one GasPool). A case is non-trivial when distinct: distinct = (recipient, payload, limit class, outcome incl. gas used) for product, (op, outcome) for sequences, (base, field, mutation) for auth, (base, forgery, way, position) for forged, (family, message, funding class, outcome incl. handler error and gas class) for staking"
 	depth := 3
 	if r.Quick() {
 		r.SetBudget(150e9)
@@ -32,14 +34,33 @@ func Run(r *mc.Run) {
 	}
 	r.Assume("YouV5 parameters of the test-case network (params.NetworkIdForTestCase); the staking module is registered on the processor exactly as node start-up does")
 	r.Assume("gas fees are not credited to an account at transaction time in this chain (they accumulate in header.GasRewards); the model follows that")
+	r.Assume("staking sub-product, master-signature family: the YouV4 parameters of the test-case network (the last version in which a role needs the master's signature) with the master address replaced by a fixture key, because the key of the shipped address is not available; block number 100, staking period end 111")
 	r.Assume("refusals outside the three reasons the statement names (limit below intrinsic gas, value not covered after gas) are required to leave the state untouched after the miner's RevertToSnapshot; their effect on the gas pool is counted (late_refusal_shrinks_pool_*), not judged")
 
-	runAuth(r)
-	runForged(r)
-	runProduct(r)
+	// VERIF_C17_PHASES=auth,forged,product,staking,seq restricts the run to some
+	// phases (development aid; the run is then marked as not exhaustive)
+	on := func(string) bool { return true }
+	if ph := os.Getenv("VERIF_C17_PHASES"); ph != "" {
+		r.Cap("VERIF_C17_PHASES restricts the run to: " + ph)
+		on = func(p string) bool { return strings.Contains(","+ph+",", ","+p+",") }
+	}
+	if on("auth") {
+		runAuth(r)
+	}
+	if on("forged") {
+		runForged(r)
+	}
+	if on("product") {
+		runProduct(r)
+	}
+	if on("staking") {
+		runStaking(r)
+	}
 	f := func() mc.System { return newSeqSys(r) }
-	r.DFSAll(f, mc.SeqOpts{Name: "txseq", Depth: depth, ShardDepth: 2, NoDistinct: true})
-	r.ConfirmSeq("txseq", f)
+	if on("seq") {
+		r.DFSAll(f, mc.SeqOpts{Name: "txseq", Depth: depth, ShardDepth: 2, NoDistinct: true})
+		r.ConfirmSeq("txseq", f)
+	}
 	r.SetExtra("sequence_depth", depth)
 	r.SetExtra("sequence_executions", r.Executions)
 	r.SetExtra("sequence_steps", r.Transitions)
@@ -90,6 +111,13 @@ func Replay(r *mc.Run, v *mc.Violation) {
 			fmt.Println("violation:", f.sig, "\n ", f.detail)
 			r.Report(mc.Violation{Sig: f.sig, Detail: f.detail, Input: v.Input})
 		}
+	case "staking":
+		var sin stkInput
+		if err := json.Unmarshal(bs, &sin); err != nil {
+			fmt.Println("bad input:", err)
+			return
+		}
+		replayStaking(r, sin, v.Input)
 	case "product":
 		obs, fs, desc := runProductCase(newBase(), in.Idx, &txCache{}, func(string) {})
 		fmt.Println(desc, "=>", obs)
